@@ -53,6 +53,7 @@ type Exec struct {
 	ghostFields map[string]*GhostField
 	fnInfos   map[string]*fnInfo
 	immutableFields map[string]bool // "pkgpath.T.f"
+	objInvs map[string]*ObjInv // "pkgpath.T"
 	immutableHeaps  map[string]bool // heap names excluded from wholesale havoc
 	immutableViolations map[string]string
 	protected map[string]Protected // "pkgpath.T.f"
